@@ -589,7 +589,7 @@ class operators:
         raise RuntimeError("This namespace is not to be instanciated")
 
     _std = ["name", "duration"]
-    _diff = ["order1", "order2"]
+    _diff = ["order1", "order2", "axes"]
 
     E = virtual_operator(_operators.E, ["tau", "T1", "T2", "g"], [], _diff + _std)
     P = virtual_operator(_operators.P, ["tau", "g"], [], _diff + _std)
